@@ -670,6 +670,12 @@ func rootKindCases(prefix string) []cases.ScanCase {
 	un := func(r cases.RootSpec) cases.RootSpec { r.Walk = false; return r }
 	mk("argument-names-a-reference", []cases.RootSpec{un(main), un(ref("g", 3, "refs/tags/v1")), named("c", 1, "refs/heads/main"), named("g", 3, "v1"), named("c", 1, "main")},
 		[]string{"refs/heads/main", "v1", "main"}, "full")
+	// two references to one annotated tag, the one that sorts first excluded by the selection: the object is still a
+	// root through the other (and what only the tag reaches is still counted)
+	mk("excluded-twin-sorts-first", []cases.RootSpec{un(main), un(ref("g", 1, "refs/archive/tb")), ref("g", 1, "refs/tags/tb"), un(ref("g", 2, "refs/archive/tt")), ref("g", 2, "refs/tags/tt")},
+		[]string{"--include", "refs/tags"}, "full")
+	mk("excluded-twin-sorts-last", []cases.RootSpec{un(main), ref("g", 1, "refs/tags/tb"), un(ref("g", 1, "refs/zz-archive/tb")), ref("t", 2, "refs/tags/tree"), un(ref("t", 2, "refs/zz-archive/tree"))},
+		[]string{"--tags"}, "full")
 	// a path with a trailing slash, and a commit found by its message (":/text" cannot be extended by ":path")
 	mk("root-with-trailing-slash", []cases.RootSpec{un(main), named("t", 1, "refs/heads/main:dir/")}, []string{"refs/heads/main:dir/"}, "full")
 	mk("root-found-by-message", []cases.RootSpec{un(main), named("c", 1, ":/^c1[^0-9]")}, []string{":/^c1[^0-9]"}, "full")
